@@ -179,27 +179,6 @@ Proof.
 Qed.
 
 (** * nested struct references name emitted structs *)
-Fixpoint has_struct (m : module) (fuel : nat) (t : ty) : bool :=
-  match fuel with
-  | O => true
-  | S k =>
-      match t_inner t with
-      | TStruct _ _ => true
-      | TArray base _ _ => match get_ty m base with Some bt => has_struct m k bt | None => false end
-      | _ => false
-      end
-  end.
-
-(** premise (WGSL rule, evaluated per case): a struct that is emitted only because it is an entry point
-    parameter (an IO struct) has no struct-typed members *)
-Definition wf_io_structs (m : module) : bool :=
-  forallb (fun e => host_shareable_b m (fst (fst e))
-                    || forallb (fun mem => match get_ty m (m_ty mem) with
-                                           | Some t => negb (has_struct m (S (length (types m))) t)
-                                           | None => true
-                                           end) (user_members (snd e)))
-          (emitted_structs m).
-
 Lemma reach_ty_trans m c h x : reach_ty m c h -> reach_ty m h x -> reach_ty m c x.
 Proof. induction 1; intros Hx; [exact Hx|]. eapply rty_step; eauto. Qed.
 
